@@ -4,7 +4,8 @@ import random
 from check import Case
 from . import util
 from . import defmachine as dm
-from .c13 import mk, case_from_replay, shrink_candidates   # noqa: F401
+from . import c13
+from common import coq, nat, natlist, Raw
 
 TARGETS = ['Properties/C14.vo', 'Run/ObsC14.vo']
 THEOREMS = util.theorems('C14')
@@ -14,13 +15,72 @@ RULE = ('pairs of definitions over ordered subsets of 2 object and 2 property na
         'and compatible cells) x every derive operation (copy, union, intersection with/without ignore_conflicts, take with None / '
         'empty / reordered / repeated / unknown names in both order modes, transposed, inverted, rebuild through Definition(*d) or '
         'Context(*d).definition()) via methods and via operators x sampled single follow-up edits on source, other operand or result; '
-        'every live handle is observed after every step (an aliased result would change with its source). Glue cases: Context/Definition '
+        'every live handle is observed after every step (an aliased result would change with its source). shape and fill_ratio of Definition(*t), Context(*d) and Context(*d).definition() against the model for every table over ordered subsets of the names and every fill up to 3x3. Glue cases: Context/Definition '
         'agreement of shape, fill_ratio, table string, crc32 and equality. non-trivial = operands share a cell and differ on another, or the '
         'follow-up edit touches a shared name; distinct by operation sequence')
 EXHAUSTIVE = {'quick': False, 'thorough': False}
 
 OBJS, PROPS = [0, 1], [3, 4]
 OBJS3, PROPS3 = [0, 1, 2], [3, 4, 5]
+
+
+def mk(ops, variant=0, nontrivial=False):
+    """a history of the Definition machine, as the left summand of Run.ObsC14.case"""
+    c = c13.mk(ops, variant, nontrivial)
+    c.term = f'(inl {c.term})'
+    return c
+
+
+def stats_case(t):
+    """shape and fill_ratio of Definition(*t), of Context(*d) and of Context(*d).definition(): right summand"""
+    import concepts
+    objs, props, bools = t
+
+    def frac(fn):
+        try:
+            x = fn()
+            return Raw(f'(Some ({x.numerator}, {x.denominator}))')
+        except ZeroDivisionError:
+            return Raw('None')
+    subs = {}
+    try:
+        d = concepts.Definition(dm.names_of(objs), dm.names_of(props), [tuple(x) for x in bools])
+        dshape = (nat(d.shape.objects), nat(d.shape.properties))
+        dratio = frac(lambda: d.fill_ratio)
+        try:
+            c = concepts.Context(*d)
+            back = c.definition()
+            agree = tuple(back.shape) == tuple(c.shape) and (back.fill_ratio == c.fill_ratio)
+            cshape = (nat(c.shape.objects if agree else 7777), nat(c.shape.properties))
+            cpart = Raw(f'(Some ({coq(cshape)}, {frac(lambda: c.fill_ratio).text}))')
+        except ValueError:
+            cpart = Raw('None')
+        obs = Raw(f'({coq(dshape)}, {dratio.text}, {cpart.text})')
+        subs = {'definition shape': tuple(d.shape), 'definition fill_ratio': dratio.text, 'context part': cpart.text}
+    except Exception as e:  # noqa: BLE001
+        obs = Raw('((7777%nat, 7777%nat), None, None)')
+        subs = {'raised': repr(e)}
+    b_t = '[' + '; '.join('[' + '; '.join('true' if x else 'false' for x in row) + ']' for row in bools) + ']'
+    term = f'(inr ({natlist(objs).text}, {natlist(props).text}, {b_t}, {obs.text}))'
+    return Case(term, {'stats': True, 'objects': objs, 'properties': props, 'bools': [[int(x) for x in row] for row in bools]},
+                len(objs) * len(props) not in (0, 1, 2, 4), [subs], sig=('stats', repr(t)))
+
+
+def case_from_replay(inp):
+    if inp.get('stats'):
+        return stats_case((inp['objects'], inp['properties'], [[bool(x) for x in row] for row in inp['bools']]))
+    c = c13.case_from_replay(inp)
+    c.term = f'(inl {c.term})'
+    return c
+
+
+def shrink_candidates(case):
+    if isinstance(case.replay, dict) and case.replay.get('stats'):
+        return []
+    out = c13.shrink_candidates(case)
+    for c in out:
+        c.term = f'(inl {c.term})'
+    return out
 
 
 def glue_case(t, r):
@@ -101,7 +161,7 @@ def glue_case(t, r):
     if not ok:
         case.term = case.term.replace('true)]))', 'false)]))')
         if 'false)]))' not in case.term:
-            case.term = '[(DNew [] [] [], (9, []%nat, []))]'
+            case.term = '(inl [(DNew [] [] [], (9, []%nat, []))])'
         case.subs = [{'glue': 'Context/Definition agreement failed for this table'}]
     return case
 
@@ -127,6 +187,14 @@ def cases(tier, seed):
     for t in tables:
         if t[0] and t[1]:
             out.append(glue_case(t, r))
+    # shape / fill_ratio against the model: every table over ordered subsets of the names (empty ones included), and
+    # below every fill of the shapes up to 3x3
+    for t in tables:
+        out.append(stats_case(t))
+    for ko in (1, 2, 3):
+        for kp in (1, 2, 3):
+            for bits in range(1 << (ko * kp)):
+                out.append(stats_case((OBJS3[:ko], PROPS3[:kp], [[bool(bits >> (i * kp + j) & 1) for j in range(kp)] for i in range(ko)])))
     # shapes whose size is not a power of two (fill ratios with odd denominators), every fill
     for ko in (1, 2, 3):
         for kp in (1, 2, 3):
@@ -141,7 +209,10 @@ def cases(tier, seed):
 def distribution(cases):
     d = {}
     for c in cases:
-        ops = c.replay['ops']
-        key = ops[2][0] if len(ops) >= 3 else 'glue'
+        if c.replay.get('stats'):
+            key = 'shape / fill_ratio'
+        else:
+            ops = c.replay['ops']
+            key = ops[2][0] if len(ops) >= 3 else 'glue'
         d[key] = d.get(key, 0) + 1
     return d
